@@ -434,34 +434,74 @@ func realHandshakes() []handshake {
 	}
 }
 
+func emitHS(r *common.Run, h handshake, kind string, n int, res hsResult) {
+	line := fmt.Sprintf("hs %s %s %d", h.name, kind, n)
+	// the line compares "returned nil" against "did not"; a stall or a panic is
+	// reported by the oracle below
+	obs := "fail"
+	if res.outcome == "done" {
+		obs = "done"
+	}
+	r.Line(line, obs)
+	r.Case(line, true, "real/"+h.name+"/"+kind+"/"+res.outcome)
+	lines := []string{"C04 " + line}
+	switch {
+	case res.outcome == "PANIC":
+		r.Fail("panic", "real:"+h.name+":"+kind, lines, "negotiation panicked: "+res.err)
+	case res.outcome == "STALL":
+		r.Fail("stall", "real:"+h.name+":"+kind, lines, "session establishment did not return")
+	case kind == "clean" && res.outcome != "done":
+		r.Fail("harness", "real-handshake-not-clean:"+h.name, lines, "the fault-free handshake fails: "+res.err)
+	case kind != "clean" && res.outcome == "done":
+		r.Fail("fail-closed", "real:"+h.name+":"+kind, lines, fmt.Sprintf("fault %s %d: session establishment returned a nil error", kind, n))
+	case kind != "clean" && res.ready:
+		r.Fail("fail-closed", "real-ready-on-error:"+h.name+":"+kind, lines, "session establishment failed ("+res.err+") but the ready bit is set")
+	}
+}
+
+// playKind runs handshake h under the fault (kind, n).
+func playKind(h handshake, kind string, n int) hsResult {
+	switch kind {
+	case "cut":
+		return play(h, n, -1, -1, -1)
+	case "rd":
+		return play(h, -1, n, -1, -1)
+	case "wr":
+		return play(h, -1, -1, n, -1)
+	case "cancel":
+		return play(h, -1, -1, -1, n)
+	}
+	return play(h, -1, -1, -1, -1)
+}
+
+// replayHS re-runs one `hs <name> <kind> <n>` line.
+func replayHS(r *common.Run, f []string) error {
+	if len(f) != 4 {
+		return fmt.Errorf("bad hs line %v", f)
+	}
+	n := 0
+	if _, err := fmt.Sscanf(f[3], "%d", &n); err != nil {
+		return err
+	}
+	for _, h := range realHandshakes() {
+		if h.name == f[1] {
+			res := playKind(h, f[2], n)
+			if f[2] == "cut" && !res.cutHit {
+				return nil
+			}
+			emitHS(r, h, f[2], n, res)
+			return nil
+		}
+	}
+	return fmt.Errorf("unknown handshake %q", f[1])
+}
+
 // runReal enumerates the fault points of the real handshakes.
 func runReal(r *common.Run) {
 	stride := r.Pick(7, 1)
 	for _, h := range realHandshakes() {
-		emit := func(kind string, n int, res hsResult) {
-			line := fmt.Sprintf("hs %s %s %d", h.name, kind, n)
-			// the line compares "returned nil" against "did not"; a stall or a panic is
-			// reported by the oracle below
-			obs := "fail"
-			if res.outcome == "done" {
-				obs = "done"
-			}
-			r.Line(line, obs)
-			r.Case(line, true, "real/"+h.name+"/"+kind+"/"+res.outcome)
-			lines := []string{"C04 " + line}
-			switch {
-			case res.outcome == "PANIC":
-				r.Fail("panic", "real:"+h.name+":"+kind, lines, "negotiation panicked: "+res.err)
-			case res.outcome == "STALL":
-				r.Fail("stall", "real:"+h.name+":"+kind, lines, "session establishment did not return")
-			case kind == "clean" && res.outcome != "done":
-				r.Fail("harness", "real-handshake-not-clean:"+h.name, lines, "the fault-free handshake fails: "+res.err)
-			case kind != "clean" && res.outcome == "done":
-				r.Fail("fail-closed", "real:"+h.name+":"+kind, lines, fmt.Sprintf("fault %s %d: session establishment returned a nil error", kind, n))
-			case kind != "clean" && res.ready:
-				r.Fail("fail-closed", "real-ready-on-error:"+h.name+":"+kind, lines, "session establishment failed ("+res.err+") but the ready bit is set")
-			}
-		}
+		h := h
+		emit := func(kind string, n int, res hsResult) { emitHS(r, h, kind, n, res) }
 		clean := play(h, -1, -1, -1, -1)
 		emit("clean", 0, clean)
 		if clean.outcome != "done" {
